@@ -2,7 +2,9 @@ package main
 
 import (
 	"fmt"
+	"go/constant"
 	"go/token"
+	"go/types"
 	"sort"
 	"strings"
 
@@ -23,7 +25,7 @@ func init() {
 		Patterns: pats,
 		Explanation: "A pairing table is built from the repository itself: every Increase()/Decrease() on a types.Resource and every Inc/Dec on a gauge field named *Active is a site, keyed by counter (resource kind, or owner+gauge). Every increment site must be matched with decrement site(s) of the same counter in its package by exactly one recognised idiom, and every decrement site must belong to a pair: " +
 			"I1 listener-paired (increment control-equivalent with stream.AddEventListener(L) in NewStream; decrement unconditional in L.OnDestroyStream, which BaseStream runs once behind its CAS); I2 CAS-paired (increment in the stream constructor, decrement in a function called only behind a one-shot CompareAndSwap); I3 token-paired (a token set with the increment, decrement only under the token, token cleared); I4 event-paired (increment on the success continuation of Connect / together with registering the connection event listener; decrement under event.IsClose(), and connection.Close emits its event behind a one-shot CAS and only for an established connection). " +
-			"Overflow returns are reached before any increment; CanCreate compares cur < max with max==0 unlimited. (PAIR, retry state) every store of nil into downStream.retryState is preceded by retryState.reset() on every path on which the state is non-nil.",
+			"Overflow returns are reached before any increment; CanCreate compares cur < max with max==0 unlimited. (PAIR, retry state) every store of nil into downStream.retryState is preceded by retryState.reset() on every path on which the state is non-nil. (I4, round 6) the conditions on the ConnectionEvent parameter are evaluated per event value: an event-paired decrement (or every call of its helper) is reachable for every closing event - the set IsClose tests, a frozen table compared with mosn.io/api on every run - and for no other.",
 		Run: runC10,
 	})
 }
@@ -72,6 +74,7 @@ func counterKey(cc *ssa.CallCommon) (string, bool, bool) {
 
 func runC10(c *Ctx) {
 	defer c10RetryAbort(c)
+	defer c10CloseSetCrossCheck(c)
 	c.Rule("C10.PAIR", "every increment is paired with its decrement by one recognised idiom; no orphan decrement", 30)
 	c.Rule("C10.ONCE", "the events the pairings rely on are delivered at most once (stream destroy CAS, connection close CAS, clean CAS)", 4)
 	c.Rule("C10.IDENT", "one counter object per cluster across updates: increments and decrements of one admission hit the same resource manager", 3)
@@ -177,6 +180,7 @@ func guardedByCall(in ssa.Instruction, name string, want bool) bool {
 
 func c10Classify(c *Ctx, s *ctrSite, ds []*ctrSite) (idiom, why string, matched []*ctrSite) {
 	fn := s.fn
+	closeWhy := ""
 	// I1: listener-paired
 	for _, cs := range callsIn(fn, false, func(cc *ssa.CallCommon) bool { return cc.IsInvoke() && cc.Method.Name() == "AddEventListener" }) {
 		if !controlEquivalent(s.in, cs.Instr) {
@@ -266,7 +270,7 @@ func c10Classify(c *Ctx, s *ctrSite, ds []*ctrSite) (idiom, why string, matched 
 	}
 	if evt {
 		for _, d := range ds {
-			if guardedByCall(d.in, "IsClose", true) {
+			if ok, _ := coversCloseEvents(d.in); ok {
 				matched = append(matched, d)
 				continue
 			}
@@ -276,7 +280,7 @@ func c10Classify(c *Ctx, s *ctrSite, ds []*ctrSite) (idiom, why string, matched 
 				anyReplace := false
 				for _, f := range c.PkgFuncs(s.pkg) {
 					for _, call := range callsIn(f, true, func(cc *ssa.CallCommon) bool { return cc.StaticCallee() == d.fn }) {
-						if guardedByFieldLoadEq(call.Instr, "goaway", 1, true) && !guardedByCall(call.Instr, "IsClose", true) {
+						if onClose, _ := coversCloseEvents(call.Instr); guardedByFieldLoadEq(call.Instr, "goaway", 1, true) && !onClose {
 							anyReplace = true
 						}
 					}
@@ -286,8 +290,12 @@ func c10Classify(c *Ctx, s *ctrSite, ds []*ctrSite) (idiom, why string, matched 
 						n++
 						// exactly-one-of idiom of the http2 pool: the helper runs either when a go-away client is replaced
 						// (goaway == 1) or on the close event of a client that is not in go-away
-						closeSite := guardedByCall(call.Instr, "IsClose", true) && !guardedByFieldLoadEq(call.Instr, "goaway", 1, true)
-						replaceSite := guardedByFieldLoadEq(call.Instr, "goaway", 1, true) && !guardedByCall(call.Instr, "IsClose", true)
+						onClose, whyNot := coversCloseEvents(call.Instr)
+						if !onClose && whyNot != "" && closeWhy == "" {
+							closeWhy = whyNot + " (call of " + d.fn.Name() + " in " + f.Name() + ")"
+						}
+						closeSite := onClose && !guardedByFieldLoadEq(call.Instr, "goaway", 1, true)
+						replaceSite := guardedByFieldLoadEq(call.Instr, "goaway", 1, true) && !onClose
 						if !closeSite && !replaceSite {
 							all = false
 						}
@@ -383,6 +391,9 @@ func c10Classify(c *Ctx, s *ctrSite, ds []*ctrSite) (idiom, why string, matched 
 		if len(matched) > 0 {
 			return "I2 CAS-paired", "incremented when the stream is created; decremented in a function whose every call site is behind a successful one-shot CompareAndSwap", matched
 		}
+	}
+	if closeWhy != "" {
+		return "", "the increment is tied to the connection's event listener, but its decrement is " + closeWhy + ": a connection ended by that event is never subtracted, so the gauge does not return to zero", nil
 	}
 	return "", "no AddEventListener / Connect-success / token / constructor context recognised around the increment in " + fn.Name(), nil
 }
@@ -687,4 +698,170 @@ func c10RetryAbort(c *Ctx) {
 	if n < 1 {
 		c.Unresolved("C10.PAIR", "stores of nil into downStream.retryState")
 	}
+}
+
+// ---------------------------------------------------------------------------------------------
+// "on every close event": event.IsClose() is the repository's definition of the events that end a connection. A decrement
+// (or the helper containing it) tied to connection events must run for each of them; a hand-written list of event
+// constants is accepted when it covers the same set. The set is frozen here and, in the thorough tier (dependencies
+// loaded with bodies), recomputed from the SSA of mosn.io/api.ConnectionEvent.IsClose and compared.
+var closeEvents = []string{"LocalClose", "OnReadErrClose", "OnWriteErrClose", "OnWriteTimeout", "RemoteClose"}
+
+// the other values of api.ConnectionEvent (cross-checked against the constants declared in mosn.io/api on every run)
+var otherEvents = []string{"ConnectFailed", "ConnectTimeout", "ConnectedFlag", "OnConnect", "OnReadTimeout", "OnShutdown"}
+
+func c10CloseSetCrossCheck(c *Ctx) {
+	// every tier: the two tables together are exactly the ConnectionEvent constants declared by mosn.io/api (type information)
+	for _, p := range c.Prog.AllPackages() {
+		if p.Pkg.Path() != "mosn.io/api" {
+			continue
+		}
+		var all []string
+		for _, name := range p.Pkg.Scope().Names() {
+			if k, ok := p.Pkg.Scope().Lookup(name).(*types.Const); ok && strings.HasSuffix(k.Type().String(), "api.ConnectionEvent") {
+				all = append(all, constant.StringVal(k.Val()))
+			}
+		}
+		sort.Strings(all)
+		tab := append(append([]string{}, closeEvents...), otherEvents...)
+		sort.Strings(tab)
+		c.Check("C10.PAIR", "mosn.io/api.ConnectionEvent:event-table", token.NoPos, strings.Join(all, ",") == strings.Join(tab, ","), "the checker's event tables list exactly the declared ConnectionEvent constants", "the checker's event tables ("+strings.Join(tab, ",")+") differ from the ConnectionEvent constants mosn.io/api declares ("+strings.Join(all, ",")+"): update the tables")
+	}
+	if c.Tier != "thorough" {
+		return
+	}
+	var isClose *ssa.Function
+	for fn := range c.all {
+		if fn.Name() == "IsClose" && fn.Pkg != nil && fn.Pkg.Pkg.Path() == "mosn.io/api" && len(fn.Blocks) > 0 {
+			isClose = fn
+		}
+	}
+	if isClose == nil {
+		c.Unresolved("C10.PAIR", "mosn.io/api.ConnectionEvent.IsClose (body needed for the close-event table cross-check)")
+		return
+	}
+	got := map[string]bool{}
+	forEachInstr(isClose, false, func(_ *ssa.Function, in ssa.Instruction) {
+		if bo, ok := in.(*ssa.BinOp); ok && bo.Op == token.EQL {
+			for _, side := range []ssa.Value{bo.X, bo.Y} {
+				if s, okS := constStringVal(side); okS {
+					got[s] = true
+				}
+			}
+		}
+	})
+	var names []string
+	for s := range got {
+		names = append(names, s)
+	}
+	sort.Strings(names)
+	c.Check("C10.PAIR", "mosn.io/api.ConnectionEvent.IsClose:close-event-table", isClose.Pos(), strings.Join(names, ",") == strings.Join(closeEvents, ","), "the frozen close-event table equals the set IsClose tests", "the close-event table of the checker ("+strings.Join(closeEvents, ",")+") differs from what mosn.io/api IsClose tests ("+strings.Join(names, ",")+"): update the table")
+}
+
+// coversCloseEvents: the instruction can be reached for every closing event of the function's ConnectionEvent parameter
+// (If conditions on the event are evaluated for each event in turn; other conditions are followed both ways). Functions
+// without such a parameter fall back to "dominated by the true edge of IsClose()".
+func coversCloseEvents(site ssa.Instruction) (bool, string) {
+	fn := site.Parent()
+	var ev ssa.Value
+	for _, p := range fn.Params {
+		if strings.HasSuffix(p.Type().String(), "api.ConnectionEvent") {
+			ev = p
+		}
+	}
+	if ev == nil {
+		if guardedByCall(site, "IsClose", true) {
+			return true, ""
+		}
+		return false, "not under IsClose()"
+	}
+	isEv := func(v ssa.Value) bool {
+		if v == ev {
+			return true
+		}
+		// spilled parameter
+		if u, ok := v.(*ssa.UnOp); ok {
+			if al, ok := u.X.(*ssa.Alloc); ok {
+				for _, r := range refs(al) {
+					if st, ok := r.(*ssa.Store); ok && st.Addr == ssa.Value(al) && st.Val == ev {
+						return true
+					}
+				}
+			}
+		}
+		return false
+	}
+	reached := func(k string, closing bool) bool {
+		edgeOK := func(from, to *ssa.BasicBlock) bool {
+			ifi, ok := from.Instrs[len(from.Instrs)-1].(*ssa.If)
+			if !ok {
+				return true
+			}
+			takenTrue := from.Succs[0] == to
+			if from.Succs[0] == from.Succs[1] {
+				return true
+			}
+			cond := ifi.Cond
+			neg := false
+			for {
+				if u, ok := cond.(*ssa.UnOp); ok && u.Op == token.NOT {
+					cond, neg = u.X, !neg
+					continue
+				}
+				break
+			}
+			val, known := false, false
+			switch x := cond.(type) {
+			case *ssa.Call:
+				if rv := recvOf(x.Common()); rv != nil && isEv(rv) {
+					switch methodName(x.Common()) {
+					case "IsClose":
+						val, known = closing, true
+					case "ConnectFailure":
+						val, known = k == "ConnectFailed" || k == "ConnectTimeout", true
+					}
+				}
+			case *ssa.BinOp:
+				if x.Op == token.EQL || x.Op == token.NEQ {
+					var other ssa.Value
+					if isEv(x.X) {
+						other = x.Y
+					} else if isEv(x.Y) {
+						other = x.X
+					}
+					if other != nil {
+						if s, okS := constStringVal(other); okS {
+							val, known = (s == k) == (x.Op == token.EQL), true
+						}
+					}
+				}
+			}
+			if !known {
+				return true
+			}
+			if neg {
+				val = !val
+			}
+			return val == takenTrue
+		}
+		return existsPathEdges(fn, nil, func(in ssa.Instruction) bool { return in == site }, nil, edgeOK) != nil
+	}
+	var missing, extra []string
+	for _, k := range closeEvents {
+		if !reached(k, true) {
+			missing = append(missing, k)
+		}
+	}
+	for _, k := range otherEvents {
+		if reached(k, false) {
+			extra = append(extra, k)
+		}
+	}
+	if len(extra) > 0 && len(missing) == 0 {
+		return false, "also reached for the event(s) " + strings.Join(extra, ",") + ", which do not end the connection"
+	}
+	if len(missing) > 0 {
+		return false, "not reached for the close event(s) " + strings.Join(missing, ",")
+	}
+	return true, ""
 }
